@@ -15,7 +15,7 @@ use crate::{
     relation::{Join, Map, Reduce, Relation, Table, Values, Variant as _},
 };
 pub use privacy_unit::{PrivacyUnit, PrivacyUnitPath};
-use std::{collections::HashMap, error, fmt, ops::Deref, result, sync::Arc};
+use std::{error, fmt, ops::Deref, result, sync::Arc};
 
 #[derive(Debug, Clone)]
 pub enum Error {
@@ -182,10 +182,10 @@ impl Relation {
                 referred_relation
             };
 
-        let lookup_fields_to_names: HashMap<String, String> = referred_fields
+        // The same referred field may be looked up under several names (unit and weight of an intermediate hop)
+        let lookup_fields_to_names: Vec<(String, String)> = referred_fields
             .into_iter()
             .zip(referred_fields_names)
-            .map(|(field, name)| (field, name))
             .collect();
         let join: Relation = Relation::join()
             .inner(Expr::eq(
@@ -208,10 +208,12 @@ impl Relation {
             .skip(left_size)
             .collect();
         Relation::map()
-            .with_iter(left.into_iter().filter_map(|(o, i)| {
+            .with_iter(left.into_iter().flat_map(|(o, i)| {
                 lookup_fields_to_names
-                    .get(i.name())
-                    .and_then(|name| Some((name.clone(), Expr::col(o.name()))))
+                    .iter()
+                    .filter(|(field, _)| field == i.name())
+                    .map(|(_, name)| (name.clone(), Expr::col(o.name())))
+                    .collect::<Vec<_>>()
             }))
             .with_iter(right.into_iter().filter_map(|(o, i)| {
                 names
